@@ -108,3 +108,41 @@ def user_vars(k):
             if s not in snap:
                 snap[s] = [canon(v), type(v).__name__ + ":" + deep_repr(v)]
     return snap
+
+
+def value_size(v, cap=100000):
+    """Number of leaves of a runtime value, counted only up to `cap` (cheap guard against runaway workloads)."""
+    import numpy as np
+    n = 0
+    stack = [v]
+    while stack and n <= cap:
+        x = stack.pop()
+        if isinstance(x, np.ndarray):
+            if x.dtype == object:
+                stack.extend(x.ravel().tolist())
+            else:
+                n += int(x.size)
+        elif isinstance(x, (list, tuple)):
+            stack.extend(x)
+        elif isinstance(x, dict):
+            stack.extend(x.keys())
+            stack.extend(x.values())
+        elif isinstance(x, str):
+            n += 1 + len(x) // 64
+        else:
+            n += 1
+    return n
+
+
+def state_size(k, cap=100000):
+    from klongpy.utils import ReadonlyDict
+    n = 0
+    for d in list(k._context._context):
+        if isinstance(d, ReadonlyDict):
+            continue
+        for name, v in list(d.items()):
+            if not str(name).startswith("."):
+                n += value_size(v, cap)
+                if n > cap:
+                    return n
+    return n
